@@ -28,6 +28,9 @@ func smallOpts() GenOpts {
 func genPolicy(s *Stream, p *AttemptPlan) {
 	p.Pacing = s.Weighted(2, 2, 2)
 	p.Seg = s.Weighted(1, 3, 2, 1, 3)
+	p.StallAfterStop = s.Chance(1, 3)
+	p.ImmediateError = s.Chance(1, 2)
+	p.LogYield = s.Chance(1, 3)
 }
 
 func pickStart(s *Stream, h *History, atUnitBoundary bool) Pos {
